@@ -13,7 +13,7 @@ Definition reg_x (x : mtask) : mtask :=
 Definition can_start (y : mtask) : Prop :=
   match m_kind y with
   | MMap _ => exists e, nth_error (m_els y) (m_idx y) = Some e /\ e_bad e = false
-  | _ => m_bad y = false /\ m_idx y < m_num y
+  | _ => nth (m_idx y) (m_bad y) false = false /\ m_idx y < m_num y
   end.
 
 Lemma register_fields s m x :
@@ -107,11 +107,11 @@ Proof.
   - intros k y Hy. destruct (Hinv _ _ Hy) as [[-> [-> _]]|[Ne H]].
     + pose proof (IR_progress _ HIR _ _ Hx) as Hp. unfold req_progress, can_start in *. cbn_m.
       destruct (m_kind x).
-      * destruct Hcs as [A B]. rewrite A in *. lia.
+      * destruct Hcs as [A B]. rewrite (ngood_S_good _ _ A). lia.
       * destruct Hcs as [e [A B]]. destruct Hp as [P1 P2].
         assert (m_idx x < length (m_els x)) by (apply nth_error_Some; congruence).
         split; [lia|]. rewrite (firstn_S_nth A), count_app. simpl. rewrite B. lia.
-      * destruct Hcs as [A B]. rewrite A in *. lia.
+      * destruct Hcs as [A B]. rewrite (ngood_S_good _ _ A). lia.
     + apply (IR_progress _ HIR) in H. exact H.
   - intros k y Hy. destruct (Hinv _ _ Hy) as [[-> [-> _]]|[Ne H]].
     + unfold req_final_ok. cbn. rewrite Hfin. auto.
